@@ -44,7 +44,11 @@ dereferences the pointer), a `String()` text, `strings.Join` of the command path
 handed over as it is (`loc` instead of `loc.String()`) is encoded by its structure: `Joined` and
 `Ordered`, `Point` and `Between` then share their text (seeded change C14-f). -/
 def valueFormOk (t : Tuple) : Bool :=
-  t.form == "deref" || t.form == "method:String" || t.form == "call:strings.Join" ||
+  t.form == "deref" || t.form == "method:String" ||
+  -- `strings.Join` only of something that is NOT an option / positional variable (the command name
+  -- `ctx.Name`): joining a list the user supplies is not injective — ["a b"] and ["a", "b"] share
+  -- their text (seeded change W13-2)
+  (t.form == "call:strings.Join" && t.reads.isEmpty) ||
   t.form == "call:encodeToString" || t.form == "literal" ||
   (t.form == "ident" && (t.prov == "decl" || t.prov == "h.Sum" || t.prov == "seqio.Detect" || t.prov == "index"))
 
